@@ -16,14 +16,17 @@ def translate_expr(toks, pos):
             return None, pos
         return [('U' if t == 'U' else 'I')] + a + b, pos
     if t == '?':
-        c = toks[pos]; pos += 1
+        c = toks[pos]
         if not re.fullmatch(r'i\d+', c):
-            # condition is not a plain input read
-            # (skip the sub-expressions to keep positions consistent)
-            _, pos2 = translate_expr(toks, pos - 1)
-            a, pos2 = translate_expr(toks, pos2)
-            b, pos2 = translate_expr(toks, pos2)
-            return None, pos2
+            # value-controlled gate `? <cond> <e> c0` (condition is not a plain input read): the
+            # cycle driver parses the same form
+            ce, pos = translate_expr(toks, pos)
+            a, pos = translate_expr(toks, pos)
+            b, pos = translate_expr(toks, pos)
+            if ce is None or a is None or b != ['c0']:
+                return None, pos
+            return ['?'] + ce + a + ['c0'], pos
+        pos += 1
         a, pos = translate_expr(toks, pos)
         b, pos = translate_expr(toks, pos)
         if a is None or b is None:
